@@ -20,6 +20,16 @@ Theorem C01_id_is_proxy_drawn :
 Proof. repeat split; reflexivity. Qed.
 Print Assumptions C01_id_is_proxy_drawn.
 
+(* ... and that draw comes from a random generator seeded from the clock when the proxy is created, taken under the lock
+   and hashed: distinct within one proxy life and, with overwhelming probability, across the lives of a restarted proxy.
+   (inj_upto below is this uniqueness; a counter would satisfy it within one life but not across restarts, which the
+   models, having a single proxy life, cannot see - hence the obligation on the source and the run of several instances.) *)
+Theorem C01_id_generator :
+  newIDCallees = ["p.Lock"; "p.randGenerator.Int63"; "p.Unlock"; "sha256.Sum256"; "[]byte"; "fmt.Sprintf"; "fmt.Sprintf"]%string /\
+  idGeneratorSeed = ["rand.New(rand.NewSource(time.Now().UnixNano()))"%string].
+Proof. split; reflexivity. Qed.
+Print Assumptions C01_id_generator.
+
 (* Proxy: for every schedule of arrivals, hand-offs, fetches, posts (also
    duplicate posts, posts for unknown IDs) and cancellations, with pairwise
    distinct IDs: a response posted under ID i reaches the client owning i and
